@@ -40,11 +40,15 @@ claims = {
  "C16": dict(
   text="Every call of Store.RepoGet in the handlers is proved to pass a name matching the repository grammar (this found the unvalidated `from` of blob mount); matchV2/ServeHTTP are verified to hand each handler the path segments of its own pattern; sessions and blobs are looked up through the Repo value obtained for the URL's repository only; a mount succeeds only after BlobGet on the source repository succeeded.",
   ref="DESIGN.md 5 (C16), 11",
-  note=COMMON_TRUST + STORE_ASSUMED + "Not covered yet: path construction inside dir.go/mem.go (filepath.Join with validated names/digests), nested-name collisions with reserved file names. regexp.MatchString is an uninterpreted predicate per compiled expression."),
+  note=COMMON_TRUST + STORE_ASSUMED + "Store level: at every call into package os in dir.go/mem.go the path argument is proved to lie below the directory of the repository object (below the root in RepoGet), where 'below' is produced by filepath.Join with elements proved free of .. (literals inspected, repository names by the grammar axiom, digest parts only after Validate, directory entry names) and by os.CreateTemp; functions outside dirRepo/dirRepoUpload/memRepo/dir.RepoGet are proved to make no path-taking os call at all. Assumed: the axiom that names matching the repository grammar contain no .. element; filepath.Join/CreateTemp semantics as just stated; object invariants of upload objects (filename below the repository path). Not covered: symlinks inside the root, nested-name collisions with reserved file names (a/blobs), isolation of in-memory maps. regexp.MatchString is an uninterpreted predicate per compiled expression."),
  "C14": dict(
   text="Handler level: with storage read-only every mutating handler answers 403 and leaves the store's ghost mutation counter unchanged; with push disabled PUT/POST/PATCH, and with delete disabled DELETE, are refused with a 4xx by ServeHTTP's routing and change nothing; GET/HEAD never change the mutation counter. Proved for every request and configuration.",
   ref="DESIGN.md 5 (C14), 11",
-  note=COMMON_TRUST + STORE_ASSUMED + "Not covered yet: the store implementations themselves (a read-only dir store or a mem store never writes the file system)."),
+  note=COMMON_TRUST + STORE_ASSUMED + "Store level: a ghost counter fswrites() is incremented by every call into package os that is not on a read-only list (Stat, Open, ReadFile, ReadDir, ...; writes through a handle are attributed to the call that opened it for writing). Every function of internal/store and internal/cache has the postcondition (and loop invariant) 'no write permission implies fswrites unchanged'; every function of mem.go the unconditional 'fswrites unchanged'; dir.go functions that write without testing the switch (gc, repoInit, the collector goroutine) require the switch to be off and every caller, including the go statement that spawns the collector, is proved to establish it. Assumed object invariants (listed in the evidence): objects of a store carry the store's configuration; upload objects of the directory store exist only when it is writable (asserted where they are built). One ghost constant per server for the switch and the write permission, fixed at NewDir/NewMem. Not covered: files written by other processes, effects of goroutines on each other."),
+ "C01": dict(
+  text="Reduced claim, decided per function: (1) GET handlers (blobGet$1, manifestGet$1): at the call of http.ServeContent the reader being served was handed out by the store for exactly the digest that the Docker-Content-Digest header reports (ghost field of the reader), also after content negotiation replaced the descriptor by a child, and for a request by digest that digest is the one in the URL. (2) push handlers: a PUT closes the session only after Verify(digest parameter) succeeded, and a manifest is stored under the digest computed from the received bytes (reference-is-tag-or-body-digest). (3) upload objects of both stores: the representation invariant 'the writer is the tee of the file/buffer and of the hash of the current digester' is established where the object is built and kept by every method, so no accepted byte bypasses the hash and the digester cannot be swapped without the writer.",
+  ref="DESIGN.md 5 (C01), 11",
+  note=COMMON_TRUST + STORE_ASSUMED + "Not proved: that the digest reported by a digester is the hash of the bytes fed to it (go-digest, crypto), that Close stores the file under exactly that digest when no digest was pinned (read off the code: the blob name is built from d.Digest()), rescans after an algorithm change (Seek/Copy are not modelled), partial writes after an I/O fault. Content of stored blobs is not modelled, so 'never retrievable under a wrong digest' is reduced to the three clauses above."),
  "C19": dict(
   text="Config.SetDefaults is proved against the documented defaults table for every configuration: a set switch keeps its pointer and no existing bool is written, an unset one gets a fresh bool with the documented default, numeric fields keep non-zero (positive for the manifest limit) values and get the default otherwise, nothing else changes. newServeCmd registers every flag name for its own option with the documented default (ghost flag registry), serveOpts.run hands every option to the documented configuration field (call-site assertion at olareg.New). The rate limit in ServeHTTP counts exactly, refuses exactly when the count exceeds the limit and never without a limit; push/delete switches route as documented (with C14).",
   ref="DESIGN.md 5 (C19), 11",
@@ -55,7 +59,6 @@ not_applicable = {
  "C11": "whole-history property over concurrent schedules (linearizability); contracts on single calls cannot express or decide it, and the technique family is fixed (DESIGN.md 6)",
  "C12": "liveness under all interleavings; out of reach of per-call contracts. The sequential self-deadlock obligations (re-locking a held mutex) that govc generates are recorded in the lock file under C12 but decide only a fragment, so nothing is claimed (DESIGN.md 6)",
  "C13": "data-race freedom is a property of schedules under the Go memory model; no contract within reach expresses it (DESIGN.md 6)",
- "C01": "designed (DESIGN.md 5), handler-level obligations exist and are locked, but the digest check lives in the store's upload objects, which are not under contract yet: not claimed",
  "C02": "designed (DESIGN.md 5); byte-identical read-back needs the store implementations under contract (ghost content of blobs); only the manifest size-limit clause is proved (manifestPut$1): not claimed",
  "C05": "designed (DESIGN.md 5); repoGarbageCollect is not under contract yet",
  "C06": "designed (DESIGN.md 5); repoGarbageCollect/gc are not under contract yet",
